@@ -27,16 +27,28 @@ impl Call {
         match self.method {
             0 | 4 | 6 => false,
             1 | 5 | 7 => true,
+            m if m >= 8 => (m - 8) & 1 == 1,
             _ => default,
         }
     }
-    /// methods 4..=7 name the sink of the call too: 4/5 = UTF-8 slice, 6/7 = UTF-16 slice
+    /// methods 4..=7 name the sink of the call too: 4/5 = UTF-8 slice, 6/7 = UTF-16 slice;
+    /// methods from 8: 8 + replacement + 2 x (0 UTF-8 slice, 1 UTF-16 slice, 2 &mut str, 3 String)
     pub fn sink(&self, default: Sink) -> Sink {
         match self.method {
             4 | 5 => Sink::Utf8,
             6 | 7 => Sink::Utf16,
+            m if m >= 8 => [Sink::Utf8, Sink::Utf16, Sink::Str, Sink::String][(((m - 8) >> 1) & 3) as usize],
             _ => default,
         }
+    }
+    pub fn method_of(repl: bool, sink: Sink) -> u8 {
+        8 + repl as u8
+            + 2 * match sink {
+                Sink::Utf8 => 0,
+                Sink::Utf16 => 1,
+                Sink::Str => 2,
+                Sink::String => 3,
+            }
     }
     pub fn to_json(&self) -> crate::json::J {
         use crate::json::J;
